@@ -221,5 +221,8 @@ pub fn c04_counts(m1: &Beatmap, m2: &Beatmap) -> Vec<String> {
     if m1.custom_combo_colors.len() != m2.custom_combo_colors.len() || m1.custom_colors.len() != m2.custom_colors.len() {
         out.push("colour count".into());
     }
+    if m1.background_file.is_empty() != m2.background_file.is_empty() {
+        out.push(format!("background event dropped ({:?} -> {:?})", m1.background_file, m2.background_file));
+    }
     out
 }
